@@ -467,7 +467,7 @@ DBG_RULE = ("session = program (catalogue of control-flow shapes + seeded struct
 
 def _c09_cli_pairs(chk, thorough):
     """The same at the level of the real binary: `lace run p` against `lace debug p --command <non-mutating script ending in quit>`,
-    both fed the program's input on stdin; standard output (line breaks aside) and exit status must agree (Trace_Cli!DbgPairOk)."""
+    both fed the program's input on stdin; standard output and exit status must agree (Trace_Cli!DbgPairOk)."""
     import random
     vlib.build(need_cli=True)
     d, man = _files(chk, "exec", 40 * SCALE if thorough else 10)
@@ -490,7 +490,7 @@ def _c09_cli_pairs(chk, thorough):
                 # the program still has input to read when the session ends: the shortest endings, nothing after the last command
                 script = rnd.choice(["q", "s;q", "r;q", "step into 2\nq", "s;s;s;q", "c;q"])
             b = vlib.run_lace(["debug", "--minimal"] + _flag(c["stack"]) + [c["path"], "--command", script], stdin=inp)
-            norm = lambda o: _norm_out(o, [c["path"]]).replace("\n", "")
+            norm = lambda o: _norm_out(o, [c["path"]])
             evs.append({"ev": "dbgpair", "tag": c["tag"], "run": [a[0], norm(a[1])], "dbg": [b[0], norm(b[1])], "script": script, "src": c["src"]})
         return evs
     events = [e for evs in parallel(pair, list(enumerate(man)), 8) for e in evs]
@@ -499,7 +499,7 @@ def _c09_cli_pairs(chk, thorough):
     lp = os.path.join(d, "longloop.asm")
     open(lp, "w").write(long_src)
     a = vlib.run_lace(["run", "--minimal", lp], timeout=120)
-    norm = lambda o: _norm_out(o, [lp]).replace("\n", "")
+    norm = lambda o: _norm_out(o, [lp])
     for script in ["c;q", "step;c;q", "continue", "step into 3;step out;c;q", "print r0" + " w" * 300 + ";c;q", "r" + " 1" * 256 + ";q"]:
         b = vlib.run_lace(["debug", "--minimal", lp, "--command", script], timeout=120)
         events.append({"ev": "dbgpair", "tag": "longloop", "run": [a[0], norm(a[1])], "dbg": [b[0], norm(b[1])], "script": script[:80], "src": long_src})
@@ -507,10 +507,20 @@ def _c09_cli_pairs(chk, thorough):
     ep = os.path.join(d, "escout.asm")
     open(ep, "w").write(esc_src)
     a = vlib.run_lace(["run", "--minimal", ep])
-    norm = lambda o: _norm_out(o, [ep]).replace("\n", "")
+    norm = lambda o: _norm_out(o, [ep])
     for script in ["step into 2;echo m;registers;step;quit", "step into 3;echo m;c;q", "step into 2;bogus m;p r0;c;q", "step into 2;assembly;c;q", "c;q"]:
         b = vlib.run_lace(["debug", "--minimal", ep, "--command", script])
         events.append({"ev": "dbgpair", "tag": "escout", "run": [a[0], norm(a[1])], "dbg": [b[0], norm(b[1])], "script": script, "src": esc_src})
+    # output that ends in the middle of a line, then a trap that starts a fresh line (REG, PUTN): a pause in between must not change what is printed
+    mid_src = "ld r0 a\nout\nout\nreg\nout\nputn\nout\nreg\nlea r0 s\nputs\nreg\nhalt\na .fill x41\ns .stringz \"xy\"\n"
+    mp = os.path.join(d, "midline.asm")
+    open(mp, "w").write(mid_src)
+    a = vlib.run_lace(["run", "--minimal", mp])
+    norm = lambda o: _norm_out(o, [mp])
+    for script in ["step;step;step;step;step;step;step;step;step;step;step;c;q", "step into 3;r;step;p r0;step into 2;echo x;step;c;q", "step into 2;c;q", "step into 7;bogus;c;q",
+                   "step into 10;help;step;quit", "break add x3003;c;c;q", "break add x3007;break add x300a;c;r;c;r;c;q"]:
+        b = vlib.run_lace(["debug", "--minimal", mp, "--command", script])
+        events.append({"ev": "dbgpair", "tag": "midline", "run": [a[0], norm(a[1])], "dbg": [b[0], norm(b[1])], "script": script, "src": mid_src})
     _cli_validate(chk, events, "dbgpair")
     _env_events(chk, {"xport"}, n=9)
     _shutil.rmtree(d, ignore_errors=True)
